@@ -447,6 +447,73 @@ impl<K: Ord + Hash, V> DetMap<K, V> {
     pub fn values(&self) -> std::vec::IntoIter<&V> {
         self.iter().map(|(_, v)| v).collect::<Vec<_>>().into_iter()
     }
+
+    pub fn values_mut(&mut self) -> std::vec::IntoIter<&mut V> {
+        self.iter_mut().map(|(_, v)| v).collect::<Vec<_>>().into_iter()
+    }
+
+    /// `HashMap::retain`: the closure meets the entries in iteration order, which is the
+    /// salted order here too (a closure that counts or remembers depends on it).
+    pub fn retain<F: FnMut(&K, &mut V) -> bool>(&mut self, mut f: F)
+    where
+        K: Clone,
+    {
+        let keys: Vec<K> = self.keys().cloned().collect();
+        for k in keys {
+            let keep = match self.0.get_mut(&k) {
+                Some(v) => f(&k, v),
+                None => true,
+            };
+            if !keep {
+                self.0.remove(&k);
+            }
+        }
+    }
+
+    /// `HashMap::drain`: all entries, in iteration order; the map is empty afterwards.
+    pub fn drain(&mut self) -> std::vec::IntoIter<(K, V)> {
+        let mut v: Vec<(K, V)> = std::mem::take(&mut self.0).into_iter().collect();
+        let salt = map_salt();
+        if salt != 0 {
+            v.sort_by_key(|(k, _)| salted(salt, k));
+        }
+        v.into_iter()
+    }
+
+    // the parts of the HashMap API that a BTreeMap does not have: sizes are advisory
+    pub fn with_capacity(_n: usize) -> Self {
+        DetMap::new()
+    }
+
+    pub fn capacity(&self) -> usize {
+        self.0.len()
+    }
+
+    pub fn reserve(&mut self, _additional: usize) {}
+
+    pub fn shrink_to_fit(&mut self) {}
+}
+
+impl<K: Ord + Hash, V> IntoIterator for DetMap<K, V> {
+    type Item = (K, V);
+    type IntoIter = std::vec::IntoIter<(K, V)>;
+    fn into_iter(mut self) -> Self::IntoIter {
+        self.drain()
+    }
+}
+
+impl<'a, K: Ord + Hash, V> IntoIterator for &'a mut DetMap<K, V> {
+    type Item = (&'a K, &'a mut V);
+    type IntoIter = std::vec::IntoIter<(&'a K, &'a mut V)>;
+    fn into_iter(self) -> Self::IntoIter {
+        self.iter_mut()
+    }
+}
+
+impl<K: Ord + Hash, V> std::iter::FromIterator<(K, V)> for DetMap<K, V> {
+    fn from_iter<I: IntoIterator<Item = (K, V)>>(it: I) -> Self {
+        DetMap(it.into_iter().collect())
+    }
 }
 
 impl<K, V> Deref for DetMap<K, V> {
